@@ -50,9 +50,14 @@ CHECKS = {
  "C13": dict(cat="exploration", tech="repeated CLI runs under different PYTHONHASHSEED / cwd / load with byte comparison of all artefacts",
    text="The same input and options are run in separate processes under several hash seeds, scratch directories and concurrent load; specification JSONs, greedy id lists (log), emitted files and CSV rows (timings masked) must be byte-identical.",
    note="finitely many seeds and one load level", ref="3/C13"),
+ "C06": dict(cat="exploration", tech="stand-in solver: z3 enumeration of all models of the emitted hard constraints, decoded by the tool's own model reader and judged by symbolic execution; SMT-LIB well-formedness checker",
+   text="The real encoder writes the real .smt2 for specifications of small blocks under 19 encoder option sets; all models of the hard constraints (projected on the instruction sequence) are enumerated with z3, rendered in the solver's output format, decoded by _rebuild_block_from_solver/get_value and checked by realizes() within init_progr_len/max_sk_sz; a few models per instance go through optimize_block() with the stand-in executable; every script is checked for undeclared, doubly declared or ill-sorted symbols.",
+   note="trusts z3 as model enumerator; complete per instance unless the 3000-model cap / 5 s limit is hit (counted); instance family init_progr_len<=5, max_sk_sz<=8", ref="3/C06"),
+ "C07": dict(cat="exploration", tech="brute-force enumeration of realizing sequences vs. exhaustive model enumeration; soft-constraint penalties evaluated under each model",
+   text="For small instances the set of realizing sequences within the bounds (our enumeration) and the set of models (z3) are both computed completely; satisfiability, equality of the cheapest true cost, optimality of the minimal-penalty models and constancy of penalty minus cost are checked for gas/size/length under 14 bounds/pruning/soft-constraint option sets.",
+   note="true cost uses the specification's own gas/size fields; z3 trusted; same blocks under every option set", ref="3/C07"),
 }
-NOT_YET = {"C06": "planned: stand-in solver (z3 model enumeration) driving the real encoder; not built yet, nothing claimed",
-           "C07": "planned together with C06 (brute-force optimum vs. soft-constraint optimum); not built yet, nothing claimed"}
+NOT_YET = {}
 def main():
     props = [json.loads(l) for l in open(os.path.join(V, "properties.jsonl"))]
     checks = []
